@@ -5,7 +5,7 @@
 From Coq Require Import ZArith List String Bool.
 From Model Require Import PyBase Graph PeriodicTable Standardize StandardizeMatch StandardizeHyd.
 From Gen Require Import Elements StdRules.
-From Proofs Require Import StandardizeProofs StandardizeExt StandardizeTables StandardizeHydProofs.
+From Proofs Require Import StandardizeProofs StandardizeExt StandardizeTables StandardizeHydProofs StandardizeHydGen.
 Import ListNotations.
 Open Scope Z_scope.
 
@@ -226,3 +226,17 @@ Theorem C14_explicify_implicify_inverse_partial :
                               (flat_map (fun v => map (fun r => (v, r)) table_rules) [0; 1; 2]%nat)))%nat = true.
 Proof. exact (conj inverse_on_instantiations inverse_sweep_b). Qed.
 Print Assumptions C14_explicify_implicify_inverse_partial.
+
+(* explicify_hydrogens is idempotent (for ALL molecules with known, non-negative hydrogen counts): a second application adds
+   nothing and returns the same molecule *)
+Theorem C14_explicify_idempotent : forall g g',
+  (forall na, In na (m_atoms g) -> exists h, a_h (snd na) = Some h /\ 0 <= h) -> explicify g = Ok g' -> explicify g' = Ok g'.
+Proof. exact explicify_idempotent. Qed.
+Print Assumptions C14_explicify_idempotent.
+
+(* implicify_hydrogens on a molecule without protium atoms is the identity, for ANY valence lookup (so implicify is idempotent
+   whenever its first application removed every protium atom) *)
+Theorem C14_implicify_no_protium : forall vlookup g,
+  (forall na, In na (m_atoms g) -> is_protium (snd na) = false) -> implicify vlookup g = Ok g.
+Proof. exact implicify_no_protium. Qed.
+Print Assumptions C14_implicify_no_protium.
